@@ -27,7 +27,8 @@ theorem C10_wrap_in_function_same_meaning (p : Block) (hs : Sim.SB false p) (hl 
       | _ => True :=
   Wrap.wrap_same_meaning_as Wrap.hoofd (by decide) (by decide) p hs hl r hr
 
-/-- ... and on the machine: if the text `src1` denotes a value, then — unless one of the two runs stops at the machine's
+/-- ... and on the machine, for the VALUE case (the fragment has no `print`, so outputs are empty; error outcomes are transferred at the
+    definitional level only by the theorem above): if the text `src1` denotes a value, then — unless one of the two runs stops at the machine's
     stack/frame limit — from some budget on `eval` answers the same for the program and for the program wrapped in a function
     (`hc1`, `hc2`: both fit the bytecode format) -/
 theorem C10_wrap_in_function_same_behaviour (cc : CharClass) (src1 src2 : Text) (p : Block) (r1 r2 : RBlock) (b1 b2 : Bytecode)
